@@ -156,7 +156,7 @@ func decodersOf(name string, rt reflect.Type, t *Kind) []decoderFn {
 }
 
 type stats struct {
-	rows, encodes, decodes, cuts, muts, skipped int
+	rows, encodes, decodes, cuts, muts, skipped, bigskip int
 	classes                                     map[string]bool
 	fresh                                       []string // classes first seen in the current row
 }
@@ -222,6 +222,9 @@ func judge(r *Row, t *Kind, enc func(interface{}) ([]byte, string), d decoderFn,
 				return
 			}
 			o2 := d.run(eb)
+			if o2.status() == "skipped" {
+				return
+			}
 			if o2.status() != "ok" || !absEqual(o2.val, o.val) {
 				base["second"] = o2.status()
 				emitIssue("unstable-decode", r, "unstable-decode:"+r.Name+":"+what, base, b)
@@ -425,7 +428,8 @@ func processRow(r *Row, shufSalt uint64) {
 	for i := range r.Muts {
 		m := &r.Muts[i]
 		if m.Big && fatalTypes[r.Name] {
-			st.skipped++ // this allocation site already killed a worker; every such input is reported once
+			st.bigskip++ // this allocation site already killed a worker; every such input is reported once
+			curCase += len(decs) // keep the numbering of decoder calls independent of what is skipped
 			continue
 		}
 		mb := append(append(append([]byte{}, specBytes[:m.At-1]...), ints2bytes(m.Pre)...), specBytes[m.At-1+m.W:]...)
